@@ -86,6 +86,24 @@ func (e *Engine) verifyTop(fn *ssa.Function, c *Contract, res *FuncResult) {
 	fr.params = args
 	// check generated clause signatures against the real one (first clause function suffices per kind)
 	e.checkHeader(fn, c)
+	// materialise every ghost variable so that "unchanged" can be stated about it
+	for path, cf := range e.P.Files {
+		sp := e.P.SSAPkgs[path]
+		if sp == nil {
+			continue
+		}
+		for _, g := range cf.Ghosts {
+			name := strings.Fields(g)[0]
+			if gv, ok := sp.Members[name].(*ssa.Global); ok {
+				t := gv.Type().(*types.Pointer).Elem()
+				if _, isS := isStruct(t); isS {
+					e.loadStruct(st, e.globalRef(gv), t)
+				} else {
+					e.loadGlobal(st, gv)
+				}
+			}
+		}
+	}
 	entry := st.clone()
 	fr.entry = entry
 	for _, cl := range c.Clauses {
